@@ -463,6 +463,7 @@ package state
 // the transaction's tables and never to commit; what C05 proves is the commit discipline around them.
 //@ func Store.txnKVS
 //@ props C03 C05 C10
+//@ opt single-txn yes
 //@ results res, err
 //@ requires op != nil
 //@ ensures[never-commits] commits() == old(commits())
@@ -478,18 +479,52 @@ package state
 //@ ensures[delete-applies] op.Verb == api.KVDelete && err == nil ==> T_kvs(op.DirEnt.Key) == nil
 //@ ensures[delete-tree-applies] op.Verb == api.KVDeleteTree && err == nil ==> forall k string :: prefixOf(op.DirEnt.Key, k) ==> T_kvs(k) == nil
 //@ ensures[reads-do-not-write] (op.Verb == api.KVGet || op.Verb == api.KVGetTree || op.Verb == api.KVCheckIndex || op.Verb == api.KVCheckSession || op.Verb == api.KVCheckNotExists) ==> (forall k string :: T_kvs(k) == old(T_kvs(k))) && (forall t string :: T_index(t) == old(T_index(t)))
-//@ func Store.txnNode
+//@ func getNodeIDTxn
 //@ trusted
+//@ results n, nerr
+
+//@ func Store.txnNode
+//@ props C05 C10
+//@ opt single-txn yes
 //@ results res, err
+//@ requires op != nil
+//@ ensures[never-commits] commits() == old(commits())
+//@ ensures[cas-reports-mismatch] op.Verb == api.NodeCAS && !((old(op.Node.ModifyIndex) == 0 && old(nodeAt(op.Node.Node, op.Node.PeerName)) == nil) || (old(op.Node.ModifyIndex) != 0 && old(nodeAt(op.Node.Node, op.Node.PeerName)) != nil && old(nodeAt(op.Node.Node, op.Node.PeerName).ModifyIndex) == old(op.Node.ModifyIndex))) ==> err != nil
+//@ ensures[delete-cas-reports-mismatch] op.Verb == api.NodeDeleteCAS && !(old(nodeAt(op.Node.Node, op.Node.PeerName)) != nil && old(nodeAt(op.Node.Node, op.Node.PeerName).ModifyIndex) == old(op.Node.ModifyIndex)) ==> err != nil
+//@ ensures[get-missing-is-error] op.Verb == api.NodeGet && err == nil ==> len(res) == 1
 //@ func Store.txnService
 //@ trusted
 //@ results res, err
 //@ func Store.txnCheck
-//@ trusted
+//@ props C05 C10
+//@ opt single-txn yes
 //@ results res, err
+//@ requires op != nil
+//@ ensures[never-commits] commits() == old(commits())
+//@ ensures[cas-reports-mismatch] op.Verb == api.CheckCAS && !((old(op.Check.ModifyIndex) == 0 && old(checkAt(op.Check.Node, string(op.Check.CheckID), op.Check.PeerName)) == nil) || (old(op.Check.ModifyIndex) != 0 && old(checkAt(op.Check.Node, string(op.Check.CheckID), op.Check.PeerName)) != nil && old(checkAt(op.Check.Node, string(op.Check.CheckID), op.Check.PeerName).ModifyIndex) == old(op.Check.ModifyIndex))) ==> err != nil
+//@ ensures[delete-cas-reports-mismatch] op.Verb == api.CheckDeleteCAS && !(old(checkAt(op.Check.Node, string(op.Check.CheckID), op.Check.PeerName)) != nil && old(checkAt(op.Check.Node, string(op.Check.CheckID), op.Check.PeerName).ModifyIndex) == old(op.Check.ModifyIndex)) ==> err != nil
+//@ ensures[get-missing-is-error] op.Verb == api.CheckGet && err == nil ==> checkAt(op.Check.Node, string(op.Check.CheckID), op.Check.PeerName) != nil
 //@ func txnLegacyIntention
 //@ trusted
 //@ results err
+
+//@ file memdb.go
+
+// usage accounting reads the change set (reflection on row types): ASSUMED to touch no modelled table
+//@ func updateUsage
+//@ trusted
+//@ results uerr
+
+// The commit of a write transaction: nothing is committed (and nothing published) when usage accounting or event
+// generation fails; otherwise the memdb transaction is committed exactly once, before the events are published.
+//@ func txn.Commit
+//@ props C05
+//@ results err
+//@ requires tx != nil && tx.Txn != nil && !committed(tx.Txn) && !aborted(tx.Txn)
+//@ ensures[commit-iff-no-error] commits() == ite(err == nil, old(commits()) + 1, old(commits()))
+//@ ensures[committed-flag] committed(tx.Txn) <==> err == nil
+
+//@ file txn.go
 
 //@ func Store.txnDispatch
 //@ props C05
@@ -550,14 +585,14 @@ package state
 //@ results ok, err
 //@ requires hc != nil
 //@ ensures[applied-only-if-matched] ok ==> (old(hc.ModifyIndex) == 0 && old(checkAt(hc.Node, string(hc.CheckID), hc.PeerName)) == nil) || (old(hc.ModifyIndex) != 0 && old(checkAt(hc.Node, string(hc.CheckID), hc.PeerName)) != nil && old(checkAt(hc.Node, string(hc.CheckID), hc.PeerName).ModifyIndex) == old(hc.ModifyIndex))
-//@ ensures[mismatch-writes-nothing] !((old(hc.ModifyIndex) == 0 && old(checkAt(hc.Node, string(hc.CheckID), hc.PeerName)) == nil) || (old(hc.ModifyIndex) != 0 && old(checkAt(hc.Node, string(hc.CheckID), hc.PeerName)) != nil && old(checkAt(hc.Node, string(hc.CheckID), hc.PeerName).ModifyIndex) == old(hc.ModifyIndex))) ==> !ok && catalogUntouched()
+//@ ensures[mismatch-writes-nothing] !((old(hc.ModifyIndex) == 0 && old(checkAt(hc.Node, string(hc.CheckID), hc.PeerName)) == nil) || (old(hc.ModifyIndex) != 0 && old(checkAt(hc.Node, string(hc.CheckID), hc.PeerName)) != nil && old(checkAt(hc.Node, string(hc.CheckID), hc.PeerName).ModifyIndex) == old(hc.ModifyIndex))) ==> !ok && err == nil && catalogUntouched()
 //@ ensures[err-not-ok] err != nil ==> !ok
 
 //@ func Store.deleteCheckCASTxn
 //@ props C10
 //@ results ok, err
 //@ ensures[applied-only-if-matched] ok ==> old(checkAt(node, string(checkID), peerName)) != nil && old(checkAt(node, string(checkID), peerName).ModifyIndex) == cidx
-//@ ensures[mismatch-writes-nothing] !(old(checkAt(node, string(checkID), peerName)) != nil && old(checkAt(node, string(checkID), peerName).ModifyIndex) == cidx) ==> !ok && catalogUntouched()
+//@ ensures[mismatch-writes-nothing] !(old(checkAt(node, string(checkID), peerName)) != nil && old(checkAt(node, string(checkID), peerName).ModifyIndex) == cidx) ==> !ok && err == nil && catalogUntouched()
 //@ ensures[err-not-ok] err != nil ==> !ok
 
 //@ func Store.ensureNodeCASTxn
@@ -565,7 +600,7 @@ package state
 //@ results ok, err
 //@ requires node != nil
 //@ ensures[applied-only-if-matched] ok ==> (old(node.ModifyIndex) == 0 && old(nodeAt(node.Node, node.PeerName)) == nil) || (old(node.ModifyIndex) != 0 && old(nodeAt(node.Node, node.PeerName)) != nil && old(nodeAt(node.Node, node.PeerName).ModifyIndex) == old(node.ModifyIndex))
-//@ ensures[mismatch-writes-nothing] !((old(node.ModifyIndex) == 0 && old(nodeAt(node.Node, node.PeerName)) == nil) || (old(node.ModifyIndex) != 0 && old(nodeAt(node.Node, node.PeerName)) != nil && old(nodeAt(node.Node, node.PeerName).ModifyIndex) == old(node.ModifyIndex))) ==> !ok && catalogUntouched()
+//@ ensures[mismatch-writes-nothing] !((old(node.ModifyIndex) == 0 && old(nodeAt(node.Node, node.PeerName)) == nil) || (old(node.ModifyIndex) != 0 && old(nodeAt(node.Node, node.PeerName)) != nil && old(nodeAt(node.Node, node.PeerName).ModifyIndex) == old(node.ModifyIndex))) ==> !ok && err == nil && catalogUntouched()
 //@ ensures[err-not-ok] err != nil ==> !ok
 
 //@ func Store.deleteNodeCASTxn
@@ -573,7 +608,7 @@ package state
 //@ results ok, err
 //@ requires entMeta != nil
 //@ ensures[applied-only-if-matched] ok ==> old(nodeAt(nodeName, peerName)) != nil && old(nodeAt(nodeName, peerName).ModifyIndex) == cidx
-//@ ensures[mismatch-writes-nothing] !(old(nodeAt(nodeName, peerName)) != nil && old(nodeAt(nodeName, peerName).ModifyIndex) == cidx) ==> !ok && catalogUntouched()
+//@ ensures[mismatch-writes-nothing] !(old(nodeAt(nodeName, peerName)) != nil && old(nodeAt(nodeName, peerName).ModifyIndex) == cidx) ==> !ok && err == nil && catalogUntouched()
 //@ ensures[err-not-ok] err != nil ==> !ok
 
 //@ pure serviceAt(node string, id string, peer string) *structs.ServiceNode = T_services(NodeServiceQuery{Node: node, Service: id, PeerName: peer})
@@ -589,7 +624,7 @@ package state
 //@ props C10
 //@ results ok, err
 //@ ensures[applied-only-if-matched] ok ==> old(serviceAt(nodeName, serviceID, peerName)) != nil && old(serviceAt(nodeName, serviceID, peerName).ModifyIndex) == cidx
-//@ ensures[mismatch-writes-nothing] !(old(serviceAt(nodeName, serviceID, peerName)) != nil && old(serviceAt(nodeName, serviceID, peerName).ModifyIndex) == cidx) ==> !ok && catalogUntouched()
+//@ ensures[mismatch-writes-nothing] !(old(serviceAt(nodeName, serviceID, peerName)) != nil && old(serviceAt(nodeName, serviceID, peerName).ModifyIndex) == cidx) ==> !ok && err == nil && catalogUntouched()
 //@ ensures[err-not-ok] err != nil ==> !ok
 
 // ---- C10: config entry check-and-set (the write/validation paths ensureConfigEntryTxn / deleteConfigEntryTxn are
